@@ -39,7 +39,7 @@ CHECKS = {
          "Every object of every generated payload is presented in all permutations of its members (<= 5 members, random beyond) through the order-preserving instrumented source; Ok projections, the multisets of reports received and held, and the multiset of (report, hand-over location) pairs must be equal. Bulky cases flood one object with 17..40 stray members.",
          "Trusted: determinism of deserr; unique keys.", "§4 C15"),
  "C12": ("fault_enumeration", "runtime monitor: catch_unwind around every call of a hostile workload + observed child processes on small stacks at depth 128",
-         "Every deserialize call of a hostile workload (all subjects x adversarial payloads x answer scripts x value sources x built-in error types fed by serde_json and by the second value source) runs under catch_unwind; a child process runs all subjects on depth-128 nestings on 2 MiB and 8 MiB stacks and its termination status is observed.",
+         "Every deserialize call of a hostile workload (all subjects x adversarial payloads x answer scripts x value sources x built-in error types fed by serde_json and by the second value source) runs under catch_unwind; a child process runs all subjects on depth-128 nestings on 2 MiB and 8 MiB stacks and its termination status is observed. A watchdog on per-thread CPU time (20 s inside one call; 120 s for a child) reports calls that do not return as did-not-return instead of waiting for them; the recording error types call the location accessors on every location they receive.",
          "Trusted: panic = unwinding panic (panic=abort builds are out of scope); depth limited to 128 as the property states.", "§4 C12"),
  "C14": ("exploration", "runtime monitor: Display of the built-in error types vs the first structured report of the recorded keep-going run; path read-back",
          "For every failing payload the JsonError / QueryParamError message is checked (by containment) against the first report of the recorded keep-going run: rendered path, offending value as JSON text, missing field, unknown key/value with every alternative, suggestion iff an independent Damerau-Levenshtein spec gives one, lengths, detail message; the path parsed back from the JsonError message must resolve to the quoted value.",
